@@ -86,6 +86,17 @@ func flat(changes []schema.Change) []schema.Change {
 
 // PlanChanges returns a migration plan for the given schema changes.
 func (p *tplanApply) PlanChanges(ctx context.Context, name string, changes []schema.Change, opts ...migrate.PlanOption) (*migrate.Plan, error) {
+	// The changes are planned one by one below, but the scope
+	// of the plan is a property of the change set as a whole.
+	var po migrate.PlanOptions
+	for _, o := range opts {
+		o(&po)
+	}
+	if po.SchemaQualifier != nil {
+		if err := sqlx.CheckChangesScope(po, changes); err != nil {
+			return nil, err
+		}
+	}
 	planned, err := sqlx.DetachCycles(changes)
 	if err != nil {
 		return nil, err
